@@ -259,9 +259,20 @@ func propC17(c *Ctx) {
 		}
 		runCmapCase(c, ops, pr)
 	}
+	// the consequence for tokenizers: user-configured ranges (states, word and whitespace characters,
+	// symbols) on the generic and the expression tokenizer
+	nTok := 3000
+	if c.Thorough {
+		nTok = 60000
+	}
+	propTokC(c, nTok)
+	c.Notes = append(c.Notes, fmt.Sprintf("%d tokenizer configurations: 1..5 of SetCharacterState (7 states incl. nil) / ClearCharacterStates / SetWordChars / ClearWordChars / SetWhitespaceChars / ClearWhitespaceChars / SymbolState.Add over 18 boundary ranges and random ones, on the generic and expression tokenizers; oracles: GetCharacterState = latest covering registration on every input character and range endpoint, lossless tokens; token streams compared with the model", nTok))
 }
 
 func replayC17(c *Ctx, op string) {
+	if replayTokC(c, op) {
+		return
+	}
 	f := strings.Fields(op)
 	var ops []mapOp
 	var probes []int
